@@ -3,7 +3,8 @@
 #include <stdlib.h>
 #define HEAP_WITH_CODES
 #include "igzip_heap.h"
-uint64_t g_p, w_q, g_s;
+uint64_t g_p, w_q, g_s, g_i, g_j;
+_Bool g_dist;
 #include "splice_defaults.h"
 #include "igzip/proc_heap_base.c"
 #include "igzip/huff_codes.c"
